@@ -6,9 +6,12 @@
  *   espconn_sent answers `live` while link==2 and `dead` otherwise (CFG dead=<r>, SENTMODE <r>).
  * Events:  ADV <us> | WIFI <status> | CONNCB | DISCCB | RECV : <hex> | SENTMODE <r> | SENTRES r r ... |
  *          LOCAL <api> <a> <b>   (direct call of a public devconn function that contains an srpc call site)
+ *          SERVER <delay_us>     (server responder: every ping frame that reaches the wire of the live connection is answered by a
+ *                                 ping result <delay_us> later, delivered from an SDK timer; -1 switches the responder off)
  * Outputs: WIFISTART t | CONNECT t | DISCONNECT t | FRESH t conn sendbuf recvbuf registered evi | RX t conn evi | DISCD t conn evi |
  *          (evi = index of the event line in the case; RX/DISCD/FRESH tell which callbacks the SDK model delivered)
  *          WIRE t conn call_id rr_id : payload | JUNK t conn nbytes | RESTART t |
+ *          SRVRX t conn (the responder delivered a ping result) |
  *          STATE t registered srpc started sendbuf recvbuf link timeout fired
  */
 #include "drvmain.h"
@@ -23,6 +26,13 @@ enum { L_IDLE = 0, L_PENDING = 1, L_LIVE = 2, L_CLOSING = 3 };
 static int c4_link = L_IDLE, c4_conn = 0, c4_live_res = 0, c4_dead_res = -12;
 static unsigned char c4_wire[1 << 16]; static size_t c4_wire_n = 0; static int c4_stalled = 0;
 
+/* server responder */
+static long long c4_srv_delay = -1; static unsigned long long c4_srvq[16]; static int c4_srvq_n = 0; static ETSTimer c4_srv_timer;
+static void c4_srv_cb(void *arg);
+static void c4_srv_arm(unsigned long long due) {
+  os_timer_disarm(&c4_srv_timer); os_timer_setfn(&c4_srv_timer, (os_timer_func_t *)c4_srv_cb, NULL);
+  ets_timer_arm_new(&c4_srv_timer, (uint32_t)(due > v_now ? due - v_now : 0), 0, 0);     /* microseconds */
+}
 static void c4_set_default(void) { v_sent_default = (c4_link == L_LIVE) ? c4_live_res : c4_dead_res; }
 static int c4_wire_conn(void) { return c4_link == L_LIVE ? c4_conn : 0; }
 
@@ -36,6 +46,10 @@ static void c4_decode(void) {
     if (c4_wire_n - o < 18 + ds_ + 5) break;
     if (memcmp(c4_wire + o + 18 + ds_, "SUPLA", 5) != 0) { c4_stalled = 1; break; }
     fprintf(stdout, "WIRE %llu %d %u %u : ", v_now, c4_wire_conn(), call, rr); vout_hex("", c4_wire + o + 18, ds_);
+    if (call == SUPLA_DCS_CALL_PING_SERVER && c4_srv_delay >= 0 && c4_link == L_LIVE && c4_srvq_n < 16) {
+      c4_srvq[c4_srvq_n++] = v_now + (unsigned long long)c4_srv_delay;
+      if (c4_srvq_n == 1) c4_srv_arm(c4_srvq[0]);
+    }
     o += 18 + ds_ + 5;
   }
   memmove(c4_wire, c4_wire + o, c4_wire_n - o); c4_wire_n -= o;
@@ -55,6 +69,20 @@ static void c4_sent_hook(struct espconn *e, const unsigned char *p, unsigned len
   if (e != vd_espconn() || result != 0) return;
   if (c4_wire_n + len <= sizeof c4_wire) { memcpy(c4_wire + c4_wire_n, p, len); c4_wire_n += len; }
   c4_decode();
+}
+static void c4_srv_cb(void *arg) {
+  static unsigned char fr[64]; unsigned rr = 1, call = SUPLA_SDC_CALL_PING_SERVER_RESULT, n = sizeof(TSDC_SuplaPingServerResult);
+  (void)arg;
+  if (c4_srvq_n == 0) return;
+  memmove(c4_srvq, c4_srvq + 1, sizeof c4_srvq[0] * (size_t)(--c4_srvq_n));
+  if (c4_srvq_n > 0) c4_srv_arm(c4_srvq[0]);
+  if (c4_link == L_LIVE) {
+    struct espconn *e = vd_espconn();
+    memcpy(fr, "SUPLA", 5); fr[5] = ESP8266_SUPLA_PROTO_VERSION; memcpy(fr + 6, &rr, 4); memcpy(fr + 10, &call, 4); memcpy(fr + 14, &n, 4);
+    memset(fr + 18, 0, n); memcpy(fr + 18 + n, "SUPLA", 5);
+    vout("SRVRX %llu %d", v_now, c4_conn);
+    if (e && e->recv_callback) e->recv_callback(e, (char *)fr, (unsigned short)(18 + n + 5));
+  }
 }
 static void c4_restart_hook(void) { vout("RESTART %llu", v_now); fflush(stdout); _exit(0); }
 static void c4_connect_hook(struct espconn *e) {
@@ -108,7 +136,7 @@ static void c4_state(void) {
 static void run_case(int n, char **lines) {
   static unsigned char buf[70000];
   int i = 0;
-  ds_apply_cfg("");
+  ds_apply_cfg(""); v_boot = 0;
   if (n > 0 && !strncmp(lines[0], "CFG", 3)) {
     /* CFG <boot> <dead_result> <nchannels> <uptime cycles> <lateness_us>... :   (positional; relays on gpio 4.. with channels 0..) */
     long long v[70]; int k = 0; char *p = lines[0] + 3;
@@ -148,7 +176,8 @@ static void run_case(int n, char **lines) {
         vout("RX %llu %d %d", v_now, c4_conn, i);
         if (e && e->recv_callback) e->recv_callback(e, (char *)buf, (unsigned short)k);
       }
-    } else if (!strncmp(l, "SENTMODE ", 9)) { c4_live_res = atoi(l + 9); c4_set_default(); }
+    } else if (!strncmp(l, "SERVER ", 7)) { c4_srv_delay = strtoll(l + 7, NULL, 0); }
+    else if (!strncmp(l, "SENTMODE ", 9)) { c4_live_res = atoi(l + 9); c4_set_default(); }
     else if (!strncmp(l, "SENTRES", 7)) {
       char *p = l + 7; v_sent_n = 0; v_sent_i = 0;
       while (*p && *p != ':') { while (*p == ' ') p++; if (!*p || *p == ':') break; v_sent_script[v_sent_n++] = (int)strtol(p, &p, 0); if (v_sent_n >= V_SENT_SCRIPT_MAX) break; }
